@@ -64,6 +64,11 @@ def gen_case(rng):
         events.append({"kind": "target_addition", "k": rng.randrange(1, total + 1), "shift": rng.choice([0, 0, -1])})
     if rng.random() < 0.3 and len(net["targets"]) > 1:
         events.append({"kind": "target_removal", "k": rng.randrange(1, total + 1), "shift": 0})
+    if rng.random() < 0.3 and len(net["sensors"]) > 1:
+        # the engine's last sensor leaves the run (time biases are only ever addressed to the first one)
+        events.append({"kind": "sensor_removal", "k": rng.randrange(1, total + 1), "shift": 0})
+    if rng.random() < 0.25:
+        events.append({"kind": "sensor_addition", "k": rng.randrange(1, total + 1), "shift": rng.choice([0, 0, -1])})
     if estimation and rng.random() < 0.4:
         events.append({"kind": "impulse", "k": rng.randrange(1, total + 1), "shift": 0})
     if estimation and rng.random() < 0.35:
@@ -88,6 +93,13 @@ def build_cfg(case):
         elif e["kind"] == "target_removal":
             evs.append({"scope": "scenario_step", "scope_instance_id": 0, "start_time": sk.iso(t), "event_type": "agent_removal", "tasking_engine_id": 1,
                         "agent_id": net["targets"][-1]["id"], "agent_type": "target"})
+        elif e["kind"] == "sensor_removal":
+            evs.append({"scope": "scenario_step", "scope_instance_id": 0, "start_time": sk.iso(t), "event_type": "agent_removal", "tasking_engine_id": 1,
+                        "agent_id": net["sensors"][-1]["id"], "agent_type": "sensor"})
+        elif e["kind"] == "sensor_addition":
+            r, v = sk.circ_state(7300.0, 51.0, 40.0, 10.0)
+            evs.append({"scope": "scenario_step", "scope_instance_id": 0, "start_time": sk.iso(t), "event_type": "sensor_addition", "tasking_engine_id": 1,
+                        "sensor_agent": sk.space_sensor_cfg(29001, r, v, kind="optical")})
         elif e["kind"] == "impulse":
             evs.append({"scope": "agent_propagation", "scope_instance_id": net["targets"][0]["id"], "start_time": sk.iso(t), "event_type": "impulse",
                         "thrust_vector": [0.0, 0.02, 0.0], "thrust_frame": "ntw", "planned": False})
@@ -502,7 +514,7 @@ def run(ctx):
                 if case["estimation"]:
                     break
                 case = gen_case(rng)
-            case["events"] = [e_ for e_ in case["events"] if e_["kind"] != "time_bias"] + [{"kind": "time_bias", "k": 0, "shift": 1, "len": sum(case["plan"]) + 2, "bias": rng.choice([0.5, -0.5]), "all": True}]
+            case["events"] = [e_ for e_ in case["events"] if e_["kind"] not in ("time_bias", "sensor_removal")] + [{"kind": "time_bias", "k": 0, "shift": 1, "len": sum(case["plan"]) + 2, "bias": rng.choice([0.5, -0.5]), "all": True}]
             ctx.count("cases_with_all_sensor_clocks_biased")
         if i == 2:
             # once per shard: the particle filter tracks the targets and its filter steps are stored
